@@ -27,6 +27,74 @@ func runC07(r *Report) {
 	c07R2(r)
 	c07R3(r)
 	c07R4(r)
+	c07R5(r)
+}
+
+// R5 (from round-2 seeded changes):
+// (a) once the MSE handshake has returned, the BitTorrent handshake reads and writes through the connection it
+//     returned: a read from the raw socket after negotiation takes ciphertext for the peer id and leaves the RC4
+//     stream out of step — but only when those bytes arrive in a later segment than the rest (short or empty IA);
+// (b) both ends agree on the mode: the server selects only what the client offered (C08.R1, shared).
+func c07R5(r *Report) {
+	p := r.P
+	n := 0
+	for _, sp := range [][2]string{{"ClientHandshake", "ClientHandshake"}, {"ServerHandshake", "ServerHandshake"}} {
+		f := p.Func("protocol", sp[0])
+		cf := p.Func("crypto", sp[1])
+		if !r.Anchor("R5", "protocol."+sp[0], f != nil) || !r.Anchor("R5", "crypto."+sp[1], cf != nil) {
+			continue
+		}
+		r.Fn(f)
+		raw := f.Params[0]
+		var neg []*ssa.Call
+		allInstrs(f, func(in ssa.Instruction) {
+			if c, ok := in.(*ssa.Call); ok && c.Call.StaticCallee() == cf {
+				neg = append(neg, c)
+			}
+		})
+		if len(neg) == 0 {
+			r.Info("R5", sp[0]+"/no-mse-call", f.Pos(), "protocol.%s does not call crypto.%s", sp[0], sp[1])
+			continue
+		}
+		harmless := map[string]bool{"SetDeadline": true, "SetReadDeadline": true, "SetWriteDeadline": true, "Close": true, "RemoteAddr": true, "LocalAddr": true}
+		bad := ""
+		allInstrs(f, func(in ssa.Instruction) {
+			ci, ok := in.(ssa.CallInstruction)
+			if !ok {
+				return
+			}
+			cc := ci.Common()
+			if cc.StaticCallee() == cf {
+				return
+			}
+			uses := false
+			if cc.IsInvoke() {
+				if strip(cc.Value) == ssa.Value(raw) && !harmless[cc.Method.Name()] {
+					uses = true
+				}
+			}
+			for _, a := range cc.Args {
+				if strip(a) == ssa.Value(raw) {
+					uses = true
+				}
+			}
+			if !uses {
+				return
+			}
+			for _, nc := range neg {
+				if instrReaches(nc, in) {
+					bad = p.pos(in.Pos())
+				}
+			}
+		})
+		n++
+		r.Check(bad == "", "R5", sp[0]+"/io-through-negotiated-conn", f.Pos(), "after the MSE handshake every read and write uses the connection it returned",
+			"the raw socket is used ("+bad+") after crypto."+sp[1]+" has returned the negotiated connection: when RC4 was selected, bytes read there are ciphertext (a peer id made of ciphertext) and the cipher stream falls out of step — only for segmentations that deliver those bytes in a later read")
+	}
+	r.Sentinel("R5", n, 2)
+	if sh := p.Func("crypto", "ServerHandshake"); sh != nil {
+		c08R1(r.sub("R5"), sh)
+	}
 }
 
 // underlyingBuf follows re-slicing / append(buf, …) back to the buffer variable's defining values.
